@@ -405,12 +405,16 @@ def check_generated(ctx, ws, derive=True):
 class FakeOs:
     """stands in for the `os` module inside keys.py while a generator run is recorded."""
 
-    def __init__(self, rng):
+    def __init__(self, rng, first=None):
         self.rng = rng
         self.log = []
+        self.first = first
 
     def urandom(self, n):
         r = self.rng.randbytes(n)
+        if self.first is not None and len(self.first) <= n:        # a chosen first draw (boundary values), random afterwards
+            r = self.first + r[len(self.first):]
+            self.first = None
         self.log.append(r)
         return r
 
@@ -449,21 +453,21 @@ def check_generator_stream(ctx, seed_bytes):
     ctx.expect_model(line, 'ok ' + '.'.join(map(str, got_idx)) + f' {len(fake.log)}', 'mnemonic_new retry loop')
 
 
-def check_random_number(ctx, lo, hi, stream_seed):
+def check_random_number(ctx, lo, hi, stream_seed, first=None):
     """get_secure_random_number on a recorded os.urandom stream vs the model (exact integer arithmetic; the library uses floats,
     exact below 2^48) and vs the range contract lo <= r < hi."""
     import random
     from pytoniq_core.crypto import keys as K
     if not hasattr(K, 'os'):
         return
-    fake = FakeOs(random.Random(stream_seed))
+    fake = FakeOs(random.Random(stream_seed), first)
     real = K.os
     K.os = fake
     try:
         r = call(K.get_secure_random_number, lo, hi)
     finally:
         K.os = real
-    inp = {'kind': 'random-number', 'lo': lo, 'hi': hi, 'stream_seed': stream_seed.hex()}
+    inp = {'kind': 'random-number', 'lo': lo, 'hi': hi, 'stream_seed': stream_seed.hex(), 'first': first.hex() if first else None}
     ctx.case(('rand', lo, hi, stream_seed), nontrivial=True, sample=None)
     ctx.count('random-number')
     if r is not None and not (lo <= r < hi):
@@ -477,6 +481,13 @@ def check_random_number(ctx, lo, hi, stream_seed):
 
 def random_cases(ctx):
     rng = ctx.rng
+    # first draw = exactly the size of the range / one below / the mask value: the rejection test `>= range` at its boundary
+    for lo, hi in [(0, 3), (0, 5), (5, 9), (0, 255), (0, 257), (0, 1000), (0, 2047), (0, 2048), (7, 7 + 2048), (0, 65535), (0, 65537)]:
+        rg = hi - lo
+        nb = max(1, (max(rg - 1, 1).bit_length() + 7) // 8)
+        for v in (rg, rg - 1, (1 << max(rg - 1, 1).bit_length()) - 1, 0):
+            if 0 <= v < 256 ** nb:
+                check_random_number(ctx, lo, hi, rng.randbytes(8), first=v.to_bytes(nb, 'big'))
     ranges = [(0, 2048)] * 20 + [(0, 1), (0, 2), (0, 3), (5, 9), (0, 255), (0, 256), (0, 257), (7, 7 + 2048), (0, 65535), (0, 65536), (0, 65537),
                                  (0, 2 ** 20 + 3), (0, 2 ** 40), (100, 100 + 2 ** 33 + 1), (10, 10), (10, 3), (0, 2 ** 54)]
     for lo, hi in ranges + [(rng.randrange(0, 1000), rng.randrange(0, 1 << rng.randrange(1, 41))) for _ in range(ctx.n(60, 600))]:
@@ -601,6 +612,6 @@ def replay(ctx, payload):
     elif k == 'mnemonic-valid':
         check_validity(ctx, inp['words'], inp.get('tag', 'replay'))
     elif k == 'random-number':
-        check_random_number(ctx, int(inp['lo']), int(inp['hi']), bytes.fromhex(inp['stream_seed']))
+        check_random_number(ctx, int(inp['lo']), int(inp['hi']), bytes.fromhex(inp['stream_seed']), bytes.fromhex(inp['first']) if inp.get('first') else None)
     elif k == 'generator':
         check_generator_stream(ctx, bytes.fromhex(inp['stream_seed']))
